@@ -29,7 +29,14 @@ def split_cases(lines):
         yield cur
 
 
+def _sort_nodes(x):
+    if isinstance(x, dict) and isinstance(x.get("nodes"), list):
+        x = dict(x, nodes=sorted(x["nodes"], key=lambda n: canon(n.get("c")) if isinstance(n, dict) else ""))
+    return x
+
+
 def first_diff(a, b, path=""):
+    a, b = _sort_nodes(a), _sort_nodes(b)
     if type(a) != type(b) and not (isinstance(a, (int, float)) and isinstance(b, (int, float))):
         return path or "."
     if isinstance(a, dict):
